@@ -223,6 +223,11 @@ pub trait World: 'static {
     fn sweep_case(_i: u64) -> Option<Self::Case> {
         None
     }
+    /// the sweep cases with the given indices (batch loops call this once; worlds override it
+    /// so that the shared part of the enumeration is built once, not once per cell)
+    fn sweep_some(indices: &[u64]) -> Vec<(u64, Self::Case)> {
+        indices.iter().filter_map(|i| Self::sweep_case(*i).map(|c| (*i, c))).collect()
+    }
     /// names of the sweep cells (site / size / callback index), for the evidence file
     fn sweep_names() -> Vec<String> {
         Vec::new()
